@@ -5,7 +5,7 @@
 (* chooses, for every invocation of the wrapped client function, an        *)
 (* outcome o and the value r of random.random() drawn in that iteration.   *)
 (*                                                                         *)
-(* An outcome is a record [k, code, items]:                                *)
+(* An outcome is a record [k, code, items, shape]:                         *)
 (*   k = "ok"             the client function returns                       *)
 (*   k = "connTimeout"    elasticsearch.ConnectionTimeout                   *)
 (*   k = "connError"      elasticsearch.ConnectionError (incl. TlsError)    *)
@@ -15,6 +15,18 @@
 (*   k = "transportOther" any other TransportError (SerializationError ...) *)
 (*   k = "bulk"           elasticsearch.helpers.BulkIndexError whose failed *)
 (*                        items carry the statuses in the set `items`       *)
+(*   shape                for k = "api": the shape of ApiError.body, i.e. of *)
+(*                        the HTTP response body as elasticsearch-py delivers*)
+(*                        it: "es" {"error": {"type", "reason", ...}},       *)
+(*                        "errstr" {"error": "<string>"}, "notype" {"error": *)
+(*                        {"reason"}} (message is a dict), "noerror" (JSON   *)
+(*                        object without "error", e.g. a proxy's), "empty"   *)
+(*                        {}, "none" (HEAD: no body), "str" (text/html or    *)
+(*                        text/plain of a load balancer), "bytes", "list";   *)
+(*                        for k = "bulk": the shape of the failed items'     *)
+(*                        "error" member: "es" (object) or "errstr" (string);*)
+(*                        "" otherwise.  The documented reaction does not    *)
+(*                        depend on the shape.                               *)
 (* Pauses are counted in 1/1024 s (Unit), so 2^n + random.random() is an    *)
 (* integer for the dyadic random values the harness injects.                *)
 (***************************************************************************)
@@ -26,7 +38,10 @@ CONSTANTS CodeMaxRetries,   \* max_execution_count in the code
                             \* "bulk" (bulk_index: elasticsearch.helpers.bulk, returns nothing), "bulk1" (index: one document)
           Alpha(_),         \* kind -> set of outcomes the environment may choose
           JitSet,           \* values of random.random() (in 1/Unit s)
-          MaxDepth
+          MaxDepth,
+          ItemShapeTolerant \* TRUE: repaired code (bulk item errors are classified by their status whatever the shape of the
+                            \* item's "error" member); FALSE: pinned behaviour (`.get("error", {}).get("type")` on a string
+                            \* error raises AttributeError inside the handler: not retried, not a Rally error)
 
 Unit == 1024
 RetryableCodes == {502, 503, 504, 429}        \* self.retryable_status_codes
@@ -36,10 +51,12 @@ Pow2(n) == IF n <= 0 THEN 1 ELSE 2 * Pow2(n - 1)
 
 SetMin(S) == CHOOSE x \in S : \A y \in S : x <= y
 
-O(k, code, items) == [k |-> k, code |-> code, items |-> items]
-Ok == O("ok", 0, {})
-Api(code) == O("api", code, {})
-Bulk(items) == O("bulk", 0, items)
+O(k, code, items, shape) == [k |-> k, code |-> code, items |-> items, shape |-> shape]
+Ok == O("ok", 0, {}, "")
+ApiS(code, shape) == O("api", code, {}, shape)
+Api(code) == ApiS(code, "es")
+BulkS(items, shape) == O("bulk", 0, items, shape)
+Bulk(items) == BulkS(items, "es")
 
 VARIABLES kind,     \* kind of the store operation
           calls,    \* history: <<[o, r, p, ns]>> outcome, random value drawn, total pause after the call, number of sleeps
@@ -50,6 +67,7 @@ vars == <<kind, calls, status>>
 Running     == [k |-> "running", of |-> 0, rally |-> FALSE, names |-> FALSE, cls |-> "", msg |-> "", named |-> 0]
 Returned(n) == [k |-> "returned", of |-> n, rally |-> FALSE, names |-> FALSE, cls |-> "", msg |-> "", named |-> 0]
 Raised(cls, msg, named) == [k |-> "raised", of |-> 0, rally |-> TRUE, names |-> TRUE, cls |-> cls, msg |-> msg, named |-> named]
+Escaped(cls) == [k |-> "raised", of |-> 0, rally |-> FALSE, names |-> FALSE, cls |-> cls, msg |-> "other", named |-> 0]
 
 -----------------------------------------------------------------------------
 (* Transcription of EsClient.guarded, except clause by except clause.  n = execution_count after the increment. *)
@@ -58,6 +76,8 @@ BadItems(o) == {s \in o.items : s \notin RetryableCodes}
 Again == [k |-> "again"]
 Ret   == [k |-> "return"]
 Raise(cls, msg, named) == [k |-> "raise", cls |-> cls, msg |-> msg, named |-> named]
+Escape(cls) == [k |-> "escape", cls |-> cls, msg |-> "other", named |-> 0]   \* an exception raised inside a handler escapes
+NoToken == {"empty", "none"}      \* body shapes from which the client derives no error type / message
 
 CodeReact(n, o) ==
     CASE o.k = "ok" -> Ret
@@ -68,10 +88,12 @@ CodeReact(n, o) ==
       [] o.k = "api" /\ o.code = 401 -> Raise("SystemSetupError", "authn", 0)     \* except AuthenticationException
       [] o.k = "api" /\ o.code = 403 -> Raise("SystemSetupError", "authz", 0)     \* except AuthorizationException
       [] o.k = "bulk" ->                                 \* except BulkIndexError: first item with a non-retryable status
-            IF BadItems(o) # {} THEN Raise("RallyError", "bulk-unretryable", SetMin(BadItems(o)))
+            IF ~ItemShapeTolerant /\ o.shape = "errstr" THEN Escape("AttributeError")   \* err_type = ....get("error", {}).get("type")
+            ELSE IF BadItems(o) # {} THEN Raise("RallyError", "bulk-unretryable", SetMin(BadItems(o)))
             ELSE IF n <= CodeMaxRetries THEN Again ELSE Raise("RallyError", "bulk-exhausted", 0)
       [] o.k = "api" /\ o.code \notin {401, 403} ->      \* except ApiError
-            IF o.code \in RetryableCodes /\ n <= CodeMaxRetries THEN Again ELSE Raise("RallyError", "api", o.code)
+            IF o.code \in RetryableCodes /\ n <= CodeMaxRetries THEN Again
+            ELSE Raise("RallyError", "api", IF o.shape \in NoToken THEN 0 ELSE o.code)   \* "An error [e.error] occurred"
       [] o.k = "transportOther" -> Raise("RallyError", "transport", 0)            \* except TransportError
 
 (* one iteration of the while loop: time_to_sleep = 2**execution_count + random.random(); call; react *)
@@ -82,6 +104,7 @@ Step(kd, cs, o, r) ==
         THEN [calls |-> Append(cs, [o |-> o, r |-> r, p |-> Pow2(n - 1) * Unit + r, ns |-> 1]), status |-> Running]
         ELSE [calls |-> Append(cs, [o |-> o, r |-> r, p |-> 0, ns |-> 0]),
               status |-> IF x.k = "return" THEN Returned(IF kd = "plain" THEN n ELSE 0)   \* bulk_index / index return nothing
+                         ELSE IF x.k = "escape" THEN Escaped(x.cls)
                          ELSE Raised(x.cls, x.msg, x.named)]
 
 Init == /\ kind \in KindSet
@@ -159,9 +182,12 @@ Failing(kd, cs, st) == {name \in Clauses : ~Holds(name, kd, cs, st)}
 PropertyHolds == Failing(kind, calls, status) = {}
 
 (* the transcription retries exactly the documented transient classes, exactly while retries remain *)
+(* (a fact about the alphabet and the kind only: evaluated in the initial states)                   *)
 ReactionAsDocumented ==
-    \A o \in Alpha(kind) : \A n \in 1..(CodeMaxRetries + 1) :
-        (CodeReact(n, o).k = "again") <=> (IsTransient(o) /\ n <= DocRetries)
+    calls = <<>> =>
+        \A o \in Alpha(kind) : \A n \in 1..(CodeMaxRetries + 1) :
+            /\ (CodeReact(n, o).k = "again") <=> (IsTransient(o) /\ n <= DocRetries)
+            /\ CodeReact(n, o).k # "escape"
 
 TypeOK == /\ status.k \in {"running", "returned", "raised"}
           /\ Len(calls) <= CodeMaxRetries + 1
